@@ -681,6 +681,7 @@ def run(ctx):
         for kind in ("reset", "silent"):
             srv.httpd.plan = lambda h, kind=kind: {kind: True}
             ctx.case(kind, True)
+            del srv.httpd.seen[:]
             try:
                 t.send(suds.transport.Request(srv.url(), b"<m/>"))
                 ctx.fail("broken connection did not raise", {"kind": kind}, "returned", "an exception")
@@ -688,6 +689,36 @@ def run(ctx):
                 ctx.fail("non-HTTP failure was turned into a TransportError", {"kind": kind}, repr(e), "socket error")
             except Exception:
                 pass
+            # (the failure is the caller's to handle: the envelope was delivered once, not sent again behind its back)
+            if len(srv.httpd.seen) != 1:
+                ctx.fail("a request whose connection broke in the response phase was not delivered exactly once",
+                         {"kind": kind}, len(srv.httpd.seen), 1)
+        # a response that sets a cookie and whose body then cannot be decoded / read: the cookie was set all the same
+        for kind in ("bad-gzip", "bad-deflate", "truncated"):
+            tc = suds.transport.http.HttpTransport(timeout=1.5)
+            plan_ = {"status": 200, "body": b"\x1f\x8b garbage, not a gzip stream", "headers": [
+                ("Set-Cookie", "sid=c-%s; Path=/" % kind), ("Content-Encoding", "gzip" if kind == "bad-gzip" else "deflate")]}
+            if kind == "truncated":
+                plan_ = {"status": 200, "body": b"<r>" + b"x" * 100 + b"</r>", "truncate_after": 5,
+                         "headers": [("Set-Cookie", "sid=c-%s; Path=/" % kind)]}
+            srv.httpd.plan = lambda h, plan_=plan_: plan_
+            ctx.case(("cookie-with-unreadable-body", kind), True)
+            try:
+                tc.send(suds.transport.Request(srv.url(), b"<m/>"))
+                first = "returned"
+            except Exception as e:
+                first = type(e).__name__
+            srv.httpd.plan = lambda h: {"status": 200, "body": b"<ok/>"}
+            del srv.httpd.seen[:]
+            try:
+                tc.send(suds.transport.Request(srv.url(), b"<m/>"))
+                got = hdr(srv.httpd.seen[-1], "Cookie")
+            except Exception as e:
+                got = repr(e)
+            if got != ["sid=c-%s" % kind]:
+                ctx.fail("cookies sent do not match what earlier responses set for this host",
+                         {"history": "a response that set a cookie and had a body that could not be %s (%s)"
+                          % ("read" if kind == "truncated" else "decoded", first)}, got, ["sid=c-%s" % kind])
         # the connection breaks while the body is being read (also of an error reply): the caller is not handed a
         # cut-off body as if it were the reply
         for status in (200, 500):
@@ -712,7 +743,10 @@ def run(ctx):
                 except Exception:
                     pass
         del srv.httpd.seen[:]
-        for bad in ["http://127.0.0.1:%d/é" % srv.port, "http://рф/x", b"http://127.0.0.1/\xc3\xa9"]:
+        for bad in ["http://127.0.0.1:%d/é" % srv.port, "http://рф/x", b"http://127.0.0.1/\xc3\xa9",
+                    # (white space outside ASCII is outside ASCII)
+                    "\u00a0http://127.0.0.1:%d/x" % srv.port, "http://127.0.0.1:%d/x\u3000" % srv.port,
+                    "\u2028http://127.0.0.1:%d/x\u2029" % srv.port, "http://127.0.0.1:%d/x\x85" % srv.port]:
             ctx.case(("nonascii", repr(bad)), True)
             try:
                 suds.transport.Request(bad, b"<m/>")
